@@ -160,7 +160,7 @@ def _accepts(key, p):
 
 
 def _entry(key):
-    return {"init": "__init__", "init_bban": "__init__", "validate": "validate", "validate_bban": "validate", "is_valid": "is_valid"}[key]
+    return {"init": "__init__", "init_bban": "__init__", "init_none": "__init__", "validate": "validate", "validate_bban": "validate", "is_valid": "is_valid"}.get(key, key)
 
 
 def rule_ascii34(m, report, name):
